@@ -176,3 +176,25 @@ Proof.
         rewrite Q. lra.
       * fold k. apply (sparse_tail_id (1 * 1) _ _ x1). ring.
 Qed.
+
+(** ** y <- α W x + β y for every α, β *)
+Lemma axpby2_affine a b A B A' B' : A = a * A' -> B = a * B' ->
+  forall x w y, length x = length w -> length y = length w ->
+  vaxpby OpsR A x 1 (vaxpby OpsR B w b y)
+  = rmap2 (fun p q => a * p + b * q) (vaxpby OpsR A' x 1 (vaxpby OpsR B' w 0 y)) y.
+Proof.
+  intros HA HB. induction x as [|xi x IH]; intros [|wi w] [|yi y] Hx Hy; cbn in Hx, Hy; try discriminate;
+    [reflexivity|].
+  unfold vaxpby, rmap2, map2 in *. cbn [combine map fst snd]. rewrite IH by lia.
+  cbn [add mul OpsR]. subst A B. f_equal. ring.
+Qed.
+
+Lemma soc_mul_W_affine_ok : stmt_soc_mul_W_affine.
+Proof.
+  intros [|w0 w1] eta [|x0 x1] a b [|y0 y1] Hn Hx Hy; cbn in Hn, Hx, Hy; try discriminate; try lia.
+  unfold soc_mul_W, soc_mul_Winv. cbn [hd0 tl]. rewrite !vdot_R.
+  cbn [add sub mul div neg one zero OpsR]. split.
+  all: unfold rmap2 at 1; unfold map2 at 1; cbn [combine map fst snd]; f_equal; try (unfold Rdiv; ring).
+  - apply (axpby2_affine a b); [ring | ring | lia | lia].
+  - apply (axpby2_affine a b); [unfold Rdiv; ring | unfold Rdiv; ring | lia | lia].
+Qed.
